@@ -377,6 +377,30 @@ CLAIMS = {
         technique="static analysis: lockset by CFG dominance + ctor-initialiser order facts (libTooling)"),
 }
 
+# clauses added after seeding round 14 (kept apart from the long texts above)
+ROUND14 = {
+    "C02": "The end check asks every argument for its cardinality verdict in every iteration (no skip for arguments "
+           "without a value).",
+    "C03": "A further separate value of a multi-value argument is never handed to the identification funnel (it is "
+           "not a new use for one_of/any_of).",
+    "C05": "Every object stored in a key container carries the key it is stored under (setKey dominates the store or "
+           "the constructor sets it).",
+    "C06": "setUniqueData() stores the constant true in every instantiation that supports the option.",
+    "C07": "The argument-file nesting level is restored by a guard set up before the increment (a depth, not a total).",
+    "C08": "valueListOpen() asks the same questions of the last argument as the continuation branch of "
+           "evalSingleArgument().",
+    "C11": "copy() is proved to leave the destination behind the returned count untouched.",
+    "C14": "The stream front end stores every named level unchanged in the message (evaluated per enumerator).",
+    "C15": "The message text is streamed with its full length (a C-string view is a violation).",
+    "C17": "The configuration members take the constructor arguments unchanged and are never re-assigned.",
+    "C19": "The N-byte region the bounds proof relies on is established from the allocation in every constructor "
+           "instantiation.",
+    "C20": "Stores of the active flag release and the load in isActive() acquires (or seq_cst).",
+}
+for _pid, _t in ROUND14.items():
+    CLAIMS[_pid]["text"] = CLAIMS[_pid]["text"].rstrip() + " " + _t
+
+
 NOT_YET = "check not yet implemented in this revision of /verif (planned, see DESIGN.md §4)"
 NOT_APPLICABLE = {}
 
